@@ -58,6 +58,7 @@ type Params struct {
 	PreDeleteP   float64 // a standalone file is removed by hand before a lifetime
 	PreCorruptP  float64 // a snapshot file is damaged (storage fault) before a lifetime
 	PreEditP     float64 // a snapshot file gets a harmless hand edit (extra blank lines) before a lifetime
+	TrimpathP    float64 // some lifetimes run the -trimpath build (experiments only, 0 in every preset: DESIGN.md 13.11)
 	ExtraLifeP   float64 // a further edited run with another environment before the closing replay
 	NonTestNames bool
 }
@@ -874,6 +875,14 @@ func World(seed uint64, index int, p *Params) *check.World {
 		w.Lifetimes = append(w.Lifetimes, l3)
 	}
 	b.nonTestNames(w)
+	if r.Bool(p.TrimpathP) {
+		// build modes mixed within one history: what one binary recorded the other replays
+		for _, l := range w.Lifetimes {
+			if !l.Race && r.Bool(0.6) {
+				l.Trimpath = true
+			}
+		}
+	}
 	return w
 }
 
